@@ -62,9 +62,13 @@ def gen_template(rng, variant=1, containers=("main",)):
         nodesel = {"role": "w"}
     # annotations on the template: part of its identity (two templates may differ in nothing else)
     annots = rng.choice([None, None, None, {"checksum/config": "v%d" % variant}, {"checksum/config": "same"}])
-    return K.template(containers=containers, image="img:%d" % variant, node_selector=nodesel, terms=terms,
-                      tolerations=rng.choice(TOLS), resources=res, labels=template_labels(rng), annotations=annots,
-                      preferred_only=pref)
+    t = K.template(containers=containers, image="img:%d" % variant, node_selector=nodesel, terms=terms,
+                   tolerations=rng.choice(TOLS), resources=res, labels=template_labels(rng), annotations=annots,
+                   preferred_only=pref)
+    if rng.random() < 0.06:
+        # a namespace on the pod template (the schema allows it): the pods still go to the replica set's namespace
+        t["metadata"]["namespace"] = rng.choice(["ns2", "ns9"])
+    return t
 
 
 def template_labels(rng):
@@ -143,7 +147,10 @@ def gen_pods_for_node(rng, node_name, k, rs_name, other_rs, affinity_mode, nodeh
     if k == "uptodate_ready":
         return [mk("u", cstats=gen_cstats(rng), **up)]
     if k == "uptodate_notready":
-        return [mk("u", ready=False, phase=rng.choice(["Running", "Pending"]), cstats=gen_cstats(rng), **up)]
+        # (a pod that is scheduled and slow to start - a long image pull - may stay Pending well beyond ten minutes: it is
+        # unavailable, not stuck)
+        ph = rng.choice(["Running", "Pending", "Pending"])
+        return [mk("u", ready=False, phase=ph, created=rng.choice([-100, -601, -1200, -3000]) if ph == "Pending" else -300, cstats=gen_cstats(rng), **up)]
     if k == "old_ready":
         return [mk("o", **old)]
     if k == "old_notready":
@@ -346,7 +353,10 @@ def gen_ers_world(rng, stats=None, force=None):
     for nm, tpl in (("foo-a", tplA), ("foo-b", tplB), ("foo-z", gen_template(rng, 3, conts))):
         if nm == target or nm == other or rng.random() < 0.3:
             r_role = "active" if nm == "foo-a" else ("canary" if nm == "foo-b" and role_canary else "unknown")
-            st = K.ers_status(status=r_role if rng.random() < 0.8 else "", desired=rng.randint(0, n), current=rng.randint(0, n),
+            # the role string stored by the last sync: mostly the present role, sometimes none yet, sometimes the role the
+            # replica set had before the ExtendedDaemonSet's status changed (just promoted, just superseded)
+            stored_role = rng.choice([r_role] * 7 + [""] + [x for x in ("active", "canary", "unknown", "canary-failed") if x != r_role][:2])
+            st = K.ers_status(status=stored_role, desired=rng.randint(0, n), current=rng.randint(0, n),
                               ready=rng.randint(0, n), available=rng.randint(0, n),
                               conditions=open_gates(gen_rs_conditions(rng, r_role, freq=freq), force) if nm == target else None)
             rs_objs[nm] = K.ers(NS, nm, EDS, tpl, created=rng.choice([-3000, -700, -600, -599, -30]), status=st, selector=selector)
@@ -360,6 +370,12 @@ def gen_ers_world(rng, stats=None, force=None):
         for j in range(rng.choice([1, 1, 2])):
             entries = [(cname, {"limits": {"cpu": rng.choice(CPUS)}, "requests": {"memory": rng.choice(["128Mi", "128Mi", "0.125Gi"])}})
                        for cname in conts if cname == conts[0] or rng.random() < 0.5]
+            if rng.random() < 0.35:
+                # a setting that fills only one of the two resource lists: the other is then EMPTY on the pod (the setting
+                # replaces the container's resources as a whole), not inherited from the template
+                drop = rng.choice(["limits", "requests"])
+                for _, r_ in entries:
+                    r_.pop(drop, None)
             sets.append(K.setting(NS, "set%d" % j, rng.choice([EDS, EDS, EDS, "other", None]),
                                   rng.choice([{"matchLabels": {"big": "yes"}}, {"matchLabels": {"zone": "a"}},
                                               {"matchExpressions": [{"key": "big", "operator": "In", "values": []}]},
